@@ -9,8 +9,14 @@ import traceback
 from . import common, fsproxy, tlc
 
 
-def make_fn():
+def make_fn(seeding=False):
     def fn(a, b=0):
+        if seeding:
+            # a reproducible user function: seeds the global generators on every call
+            import random as _r
+            import numpy as _np
+            _r.seed(1234)
+            _np.random.seed(1234)
         return float(100 * a + b)
     return fn
 
@@ -18,11 +24,11 @@ def make_fn():
 class Setup(object):
     """A sown crop in a temp dir: NB batches of one argument 'a' (values 1..n)."""
 
-    def __init__(self, n, num_batches):
+    def __init__(self, n, num_batches, seeding=False):
         self.xyz = common.use_repo()
         self.tmp = tempfile.mkdtemp(prefix="cfs-", dir=common.scratch("cfs"))
         self.n = n
-        fn = make_fn()
+        fn = make_fn(seeding)
         crop = self.xyz.Crop(fn=fn, name="c11", parent_dir=self.tmp, num_batches=num_batches)
         crop.sow_combos({"a": list(range(1, n + 1))}, verbosity=0)
         self.nb = crop.num_batches
